@@ -625,6 +625,8 @@ def pre_masked_unoptimized(case, result):
     history (the generic, un-fused kernels run numpy.ma's own semantics)."""
     if not any(sp.get("masked") for sp in case["recipe"]["sources"].values()):
         return False
+    if any(s_["op"] == "window" and "reduce" in s_["args"] for s_ in case["recipe"]["steps"]):
+        return True  # native sliding-window kernels work on the data and ignore the mask
     return any(e["ev"] == "config" and e.get("key") == "array.optimize-graph" and e.get("value") is False
                for e in case.get("history", []))
 
